@@ -18,11 +18,11 @@ ASSUMPTIONS = [
     "on a connected graph any OPTIMAL/FEASIBLE status is accepted (the statement fixes the status only for the disconnected cases)",
 ]
 STRATA = [
-    ("ties", 1800, 40000),
-    ("spread", 1400, 30000),
-    ("multigraph", 1800, 40000),
-    ("disconnected", 1800, 40000),
-    ("larger", 240, 5000),
+    ("ties", 1800, 28000),
+    ("spread", 1400, 21000),
+    ("multigraph", 1800, 28000),
+    ("disconnected", 1800, 28000),
+    ("larger", 240, 3500),
     ("exhaustive-small", 1, 1),
 ]
 BATCH = {"exhaustive-small": 1}
